@@ -149,8 +149,9 @@ class EnvelopeStructure(Writeable):
 
     @property
     def _value(self) -> Writeable:
+        date = self.date.datetime if self.date else None
         datetime: DateTime | Nil = \
-            DateTime(self.date.datetime) if self.date else Nil()
+            DateTime(date) if date is not None else Nil()
         return List([datetime,
                      String.build(self.subject),
                      self._addresses(self.from_),
